@@ -87,6 +87,15 @@ func checkC04(sc *Scenario, h *History) []Violation {
 		}
 		return nil
 	}
+	// writtenAt is the instant at which the server wrote the octet at this offset of its stream.
+	writtenAt := func(off int) int64 {
+		for _, wr := range ch.S2C.Writes {
+			if off >= wr.Off && off < wr.Off+wr.N {
+				return wr.At
+			}
+		}
+		return 1 << 62
+	}
 	judgeFinal := func(u *Unit, msgTags []string, firstTag string) {
 		own := map[string]bool{}
 		for _, t := range msgTags {
@@ -100,6 +109,14 @@ func checkC04(sc *Scenario, h *History) []Violation {
 			if serverClosed && w.Short && r.Start == replies[len(replies)-1].Start && r.Code/100 >= 4 {
 				// The server gave up with commands unanswered: its last reply may be the
 				// closing notice, which the walk attributes to the next command.
+				continue
+			}
+			if serverClosed && r.Start == replies[len(replies)-1].Start && r.Code/100 >= 4 && d != nil && d.Done && d.End > writtenAt(r.Start) {
+				// The same when the notice falls on the very last command (nothing is left
+				// unanswered then): a negative last reply, after which the server closed, written
+				// before the backend had returned from this message's Data call, cannot be the
+				// report of that call's outcome - it is the notice of giving up (seed 5, run
+				// 2 635 968 of the thorough tier: error threshold reached inside an open transfer).
 				continue
 			}
 			text := strings.Join(r.Lines, " ")
